@@ -17,9 +17,10 @@ func (g *Gen) Idiom() *Program {
 	pick := g.R.Intn(70)
 	if g.Scopey && ((pick >= 46 && pick < 52) || (pick >= 58 && pick < 62) || pick >= 66) {
 		// the array-concatenation, list-concatenation, float, division and string families belong to the C02 stream
-		pick = []int{24, 25, 26, 27, 52, 53, 54, 55, 62, 63, 64, 65}[g.R.Intn(12)]
+		// 70 = records read through dotted paths (round 5, C03-r5s2)
+		pick = []int{24, 25, 26, 27, 52, 53, 54, 55, 62, 63, 64, 65, 70, 70, 70}[g.R.Intn(15)]
 	}
-	if !g.Vocab.Ext && ((pick >= 46 && pick < 52) || pick >= 58) {
+	if !g.Vocab.Ext && ((pick >= 46 && pick < 52) || (pick >= 58 && pick < 70)) {
 		// importers whose models lack the extended vocabulary (C05, C09, C16) get the families of the core language
 		pick = g.R.Intn(46)
 	}
@@ -596,6 +597,55 @@ func (g *Gen) Idiom() *Program {
 		return &Program{Forms: []*Node{Def("a", Arr(Int(1), Int(2))), Def("b", Arr(Int(3))),
 			Def("c", CallN("concat", Var("a"), Var("b"), Var("a"))), CallN("aset", Var("c"), Int(0), Int(k+9)),
 			CallN("list", Var("a"), Var("b"), Var("c"))}}
+	case 70:
+		// a closure reads a record it CAPTURED through a dotted path, (r.k0) / (r.k1) / (r.k0 a), and is called
+		// where another record of the same name is live: a caller's parameter or let (one or two frames up), a
+		// later global.  The head of a dotted path is a variable like any other (functions.go:dotGetSetHelper
+		// -> LexicalLookupSymbol).  Records: ast.go:KRec / KDotCall (the model reads arrays).  Names outside
+		// VarPool for records and for the functions that receive them, see Mutate.
+		rn := []string{"r", "q"}[g.R.Intn(2)]
+		v := 10 * (k + 1)
+		rec := func(v int64) *Node { return Rec(Fn(nil, "", Int(v)), Int(v+1), Fn([]string{"e"}, "", CallN("+", Var("e"), Int(v)))) }
+		use := []*Node{DotCall(rn, 0), DotCall(rn, 1), DotCall(rn, 2, Int(k)),
+			CallN("list", DotCall(rn, 0), DotCall(rn, 1), DotCall(rn, 2, Int(1)))}[g.R.Intn(4)]
+		// how the closure c gets its record
+		var mk []*Node
+		switch g.R.Intn(4) {
+		case 0:
+			mk = []*Node{Defn("mk", []string{rn}, "", Fn(nil, "", use)), Def("c", CallN("mk", rec(v)))}
+		case 1:
+			mk = []*Node{Def("c", Let(false, []string{rn}, []*Node{rec(v)}, Fn(nil, "", use)))}
+		case 2:
+			// a record of closures over the captured record
+			mk = []*Node{Defn("mk", []string{rn}, "", Rec(Fn(nil, "", use))), Def("o", CallN("mk", rec(v))), Defn("c", nil, "", DotCall("o", 0))}
+		default:
+			mk = []*Node{Defn("mk", []string{rn}, "", Def("g", Fn(nil, "", use)), Var("g")), Def("c", CallN("mk", rec(v)))}
+		}
+		// where it is called
+		other := rec(v + 500)
+		var call []*Node
+		switch g.R.Intn(7) {
+		case 0:
+			call = []*Node{Let(false, []string{rn}, []*Node{other}, CallN("c"))}
+		case 1:
+			call = []*Node{Defn("caller", []string{rn}, "", CallN("c")), CallN("caller", other)}
+		case 2:
+			call = []*Node{Defn("inner", nil, "", CallN("trace", CallN("c"))), Defn("outer", []string{rn}, "", CallN("list", CallN("inner"), DotCall(rn, 1))), CallN("outer", other)}
+		case 3:
+			call = []*Node{Def(rn, other), CallN("list", CallN("c"), DotCall(rn, 0))}
+		case 4:
+			call = []*Node{CallN("list", CallN("c"), Let(true, []string{rn, x}, []*Node{other, CallN("c")}, CallN("list", Var(x), DotCall(rn, 1))), CallN("c"))}
+		case 5:
+			// called from a builtin (map), under a let of the same name
+			call = []*Node{Let(false, []string{rn}, []*Node{other}, CallN("map", Fn([]string{"e"}, "", CallN("c")), Arr(Int(1), Int(2))))}
+		default:
+			// closures made in a loop, each over its own record, called after a global of the name exists
+			return &Program{Forms: []*Node{Def("a", Arr()),
+				For("", Def("i", Int(0)), CallN("<", Var("i"), Int(k+1)), Set("i", CallN("+", Var("i"), Int(1))),
+					Let(false, []string{rn}, []*Node{Rec(Int(0), CallN("*", Var("i"), Int(10)))}, Set("a", CallN("append", Var("a"), Fn(nil, "", DotCall(rn, 1)))))),
+				Def(rn, Rec(Int(0), Int(v+500))), CallN("map", Fn([]string{"h"}, "", CallN("h")), Var("a"))}}
+		}
+		return &Program{Forms: append(mk, call...)}
 	case 22:
 		// tail recursion creating a closure per iteration, used after later iterations
 		return &Program{Forms: []*Node{Def("a", Arr()),
@@ -612,11 +662,48 @@ func (g *Gen) Idiom() *Program {
 func (g *Gen) Mutate(p *Program) *Program {
 	q := p.Clone()
 	count := 0
-	q.Walk(func(*Node) { count++ })
+	// A program with records (ast.go:KRec, KDotCall; arrays to the model) is mutated only where no record can
+	// start to flow into an operation that tells a hash from an array: integer literals, variables of VarPool
+	// (the record idioms bind records, and the functions that take them, to other names), and sub-terms
+	// without a record or dotted call.  Other programs: any node, as before.
+	rec := q.HasRecords()
+	inPool := func(s string) bool {
+		for _, v := range VarPool {
+			if v == s {
+				return true
+			}
+		}
+		return false
+	}
+	safe := func(n *Node) bool {
+		if !rec {
+			return true
+		}
+		switch n.K {
+		case KInt:
+			return true
+		case KVar:
+			return inPool(n.Name)
+		case KRec, KDotCall:
+			return false
+		}
+		return !(&Program{Forms: []*Node{n}}).HasRecords()
+	}
+	q.Walk(func(n *Node) {
+		if safe(n) {
+			count++
+		}
+	})
+	if count == 0 {
+		return q
+	}
 	idx := g.R.Intn(count)
 	i := 0
 	var target *Node
 	q.Walk(func(n *Node) {
+		if !safe(n) {
+			return
+		}
 		if i == idx {
 			target = n
 		}
